@@ -50,7 +50,7 @@ class BlobExchangeClientProtocol(asyncio.Protocol):
         if not self._response_fut:
             log.warning("Protocol received data before expected, probable race on keep alive. Closing transport.")
             return self.close()
-        if self._blob_bytes_received and not self.writer.closed():
+        if (self._blob_bytes_received or self._response_fut.done()) and not self.writer.closed():
             return self._write(data)
 
         response = BlobResponse.deserialize(self.buf + data)
